@@ -41,12 +41,22 @@ Theorem C19_interrupted_exception_refuted :
 Proof. exact interrupted_exception_refuted. Qed.
 Print Assumptions C19_interrupted_exception_refuted.
 
-(* ... and true of every program without defer *)
+(* ... and true of EVERY program except that shape.  [defer_ok c] = c contains no
+   closure { defer { d }; r } whose deferred call d can cancel (contains
+   verif:cancel) while its body r can fail (contains fail); programs with any other
+   use of defer are covered.  The hypothesis is exactly the complement of the
+   recorded finding class sync-cancel-in-defer-of-failing-closure (the runner
+   computes the same predicate), and the witness above violates it
+   ([C19_refutation_witness_has_that_shape]). *)
 Theorem C19_interrupted_exception_sync_partial : forall c s s' e,
-  defer_free c = true ->
+  defer_ok c = true ->
   eval_chunk None c s = (s', e) -> cz s' = true -> e = Some XInt.
-Proof. exact interrupted_exception_sync_partial. Qed.
+Proof. exact interrupted_exception_sync_ok. Qed.
 Print Assumptions C19_interrupted_exception_sync_partial.
+
+Theorem C19_refutation_witness_has_that_shape : defer_ok w_defer = false.
+Proof. exact w_defer_not_ok. Qed.
+Print Assumptions C19_refutation_witness_has_that_shape.
 
 (* WHERE THE CANCELLATION POINTS ARE.  The model checks the context before each
    pipeline ([CCons]) and after each chunk ([CNil]), like pipelineOp.exec and
